@@ -20,6 +20,10 @@ use std::{
     },
 };
 use tokio::sync::{Mutex, RwLock};
+#[cfg(not(zydeco_verif))]
+use tokio::task::spawn_blocking;
+#[cfg(zydeco_verif)]
+use verif::spawn_blocking;
 use tower_lsp::{
     Client, LanguageServer,
     jsonrpc::Result,
@@ -195,7 +199,7 @@ impl Cajun {
             let session = self.session.lock().await;
             session.compiler.snapshot()
         };
-        let analysis = match tokio::task::spawn_blocking(move || {
+        let analysis = match spawn_blocking(move || {
             AnalysisTask::run(move || {
                 ProjectState::load_from_session(&analysis_path, &snapshot, |update| {
                     progress.report(update)
@@ -580,8 +584,35 @@ impl LanguageServer for Cajun {
 #[cfg(zydeco_verif)]
 pub mod verif {
     use super::{AnalysisTask, ProjectState, SessionState};
-    use std::path::Path;
+    use std::{future::Future, path::Path, sync::OnceLock};
     use zydeco_session::CompilerSession;
+
+    /// A blocking job handed to the simulator instead of tokio's blocking pool.
+    pub type BlockingJob = Box<dyn FnOnce() + Send + 'static>;
+
+    static BLOCKING_SPAWNER: OnceLock<fn(BlockingJob)> = OnceLock::new();
+
+    /// Install the simulator's thread spawner; without one a job runs inline.
+    pub fn set_blocking_spawner(spawner: fn(BlockingJob)) {
+        let _ = BLOCKING_SPAWNER.set(spawner);
+    }
+
+    /// Stand-in for `tokio::task::spawn_blocking`: same contract (the job runs
+    /// elsewhere, the future yields its output, a job that unwinds yields an
+    /// error), but the simulator decides which thread runs the job and when.
+    pub(super) fn spawn_blocking<T: Send + 'static>(
+        job: impl FnOnce() -> T + Send + 'static,
+    ) -> impl Future<Output = Result<T, String>> + Send {
+        let (sender, receiver) = tokio::sync::oneshot::channel();
+        let job: BlockingJob = Box::new(move || {
+            let _ = sender.send(job());
+        });
+        match BLOCKING_SPAWNER.get() {
+            | Some(spawner) => spawner(job),
+            | None => job(),
+        }
+        async move { receiver.await.map_err(|_| "task panicked".to_string()) }
+    }
 
     /// The owner side of the server: [`SessionState`].
     #[derive(Default)]
